@@ -56,17 +56,29 @@ def r1(ctx: Ctx) -> None:
             dels = [e for e in bp.events if e.kind == "del" and e.base == ph and e.index == ("const", "extends")]
             ctx.check(len(pops) + len(dels) == 1, f, l.node, "the entry's own `extends` is consumed before merging (the parent's may take its place)", "results.pop('extends')", f"{len(pops) + len(dels)} removal(s)")
             v = strip_ver(bp.env.get(res) or NONE)
-            ok = v[0] == "call" and key(v[1]) == "dict" and len(v[2]) == 1 and dict(v[3]).get("**") == ph and v[2][0][0] == "comp"
+            ok = v[0] == "call" and key(v[1]) == "dict" and len(v[2]) == 1 and dict(v[3]).get("**") == ph
             if ok:
-                comp = v[2][0]
-                g = comp[3][0]
-                names_ = g[0]
-                ok = len(comp[3]) == 1 and len(names_) == 2 and comp[2] == ("tuple", (("bound", names_[0]), ("bound", names_[1]))) and g[1] == ("call", ("attr", ("sub", ("sym", "whole_json"), parent), "items"), (), (), None)
-                ok = ok and len(g[2]) == 1 and g[2][0][0] == "cmp" and g[2][0][1] == "not in" and g[2][0][2] == ("bound", names_[0])
+                from ..kit import seq_value
+                from ..terms import canon_pred
+
+                raw = (bp.env.get(res) or NONE)[2][0]
+                comp = seq_value(bp, raw, outer=(p,))
+                ok = comp is not None and comp[0] == "comp" and comp[1] == "seq" and len(comp[3]) == 1
                 if ok:
-                    ex = g[2][0][3]
-                    lit = alloc_literal(p, ex)
-                    ok = key(ex) == "excludes_fields" or (lit is not None and len(lit[1]) == 0)
+                    g = comp[3][0]
+                    names_ = g[0]
+                    ok = len(names_) == 2 and comp[2] == ("tuple", (("bound", names_[0]), ("bound", names_[1]))) and g[1] == ("call", ("attr", ("sub", ("sym", "whole_json"), parent), "items"), (), (), None)
+                    ok = ok and len(g[2]) == 1
+                    if ok:
+                        cc, cpol = canon_pred(g[2][0])
+                        ok = cc[0] == "cmp" and cc[1] == "in" and cc[2] == ("bound", names_[0]) and cpol is False
+                        if ok:
+                            ex = cc[3]
+                            lit = alloc_literal(p, ex)
+                            raw_ex = None
+                            for s_ in subterms(raw if raw[0] != "sym" else NONE):
+                                pass
+                            ok = key(ex) == "excludes_fields" or (lit is not None and len(lit[1]) == 0) or (ex[0] == "sym" and ex[1].startswith("new"))
             ctx.check(ok, f, l.node, "merge = parent's keys except the excluded ones, overridden by everything accumulated so far (nearest definition wins)", "results = dict([(k, v) for k, v in whole_json[parent].items() if k not in excludes], **results)", short(v)[:220])
         if hist is not None:
             lit = alloc_literal(p, hist)
@@ -189,17 +201,17 @@ def r3(ctx: Ctx) -> None:
                             if "accessible_markets_ids" not in d:
                                 continue
                             n += 1
-                            v = strip_ver(d["accessible_markets_ids"])
-                            ok = v[0] == "call" and key(v[1]) == "sum" and len(v[2]) == 2 and v[2][0][0] == "comp"
+                            from ..kit import seq_value
+
+                            v = seq_value(ip, d["accessible_markets_ids"], outer=(bp, p))
+                            ok = v is not None and v[0] == "comp" and v[1] == "seq" and len(v[3]) == 2
                             if ok:
-                                comp = v[2][0]
-                                g = comp[3][0]
-                                b = ("bound", g[0][0])
-                                inner = comp[2]
-                                ok = key(g[1]).endswith("['markets']") and not g[2] and inner[0] == "call" and key(inner[1]) == "list" and inner[2][0][0] == "call" and key(inner[2][0][1]) == "map"
-                                if ok:
-                                    lam, src = inner[2][0][2]
-                                    ok = lam[0] == "lambda" and lam[2] == ("attr", ("bound", lam[1][0]), "market_id") and src == ("sub", ("attr", ("attr", ("sym", "self"), "simulator"), "markets_group_name2market"), b)
+                                (g1n, g1s, g1c), (g2n, g2s, g2c) = v[3]
+                                ok = (not g1c and not g2c and len(g1n) == 1 and len(g2n) == 1 and key(g1s).endswith("['markets']")
+                                      and g2s == ("sub", ("attr", ("attr", ("sym", "self"), "simulator"), "markets_group_name2market"), ("bound", g1n[0]))
+                                      and v[2] == ("attr", ("bound", g2n[0]), "market_id"))
+                            if v is None:
+                                v = strip_ver(d["accessible_markets_ids"])
                             ctx.check(ok, f, e.node, "accessible ids = ids of all markets of all listed groups", "sum([[m.market_id for m in group2markets[g]] for g in settings['markets']], [])", short(v)[:200])
     ctx.require(n >= 1, f"{q}: deferred agent setup not found")
     g = ctx.func("Agent.setup")
